@@ -1,14 +1,16 @@
 import ScVerif.C18.Shape
+import ScVerif.C18.ShapeOpsLemmas
 import ScVerif.C18.PropsSeg
+import ScVerif.C18.PropsMode
 /-!
 # C18 — property theorems, part 7: the `shape` oneof does not disturb the step function
 
 "cut splits without changing the function": `Cut` is the only anchored function that looks at a
 segment's `shape`.  Here: the shape has no influence on any magnitude, length or flag `Cut` returns
-(erasing shapes commutes with `Cut`, so `C18_cut` speaks about shaped segments too), and which part
-carries which shape.  Recorded, not a violation of C18 (the step function reads magnitudes): the `before`
-part of a LENGTH-LESS segment is returned without the segment's `Fixed` shape, while every other part
-keeps it — `C18_cut_shape_unbounded_before`.
+(erasing shapes commutes with `Cut`, so `C18_cut` speaks about shaped segments too), and every part `Cut`
+returns carries the segment's shape, so it stands for the same consumption (`Fixed` if set, else the
+magnitude) — at full strength after `fix:` c1d3a57: before it the `before` part of a LENGTH-LESS segment was
+returned without the segment's `Fixed` shape (`C18_cut_shape_legacy_fails`, found by the consumption monitor).
 
 Only property theorems and their non-vacuity examples live in this file.
 -/
@@ -31,36 +33,29 @@ theorem C18_cut_shape_erase (d : Int) (s : SegS) :
       · simp [hl]
       · simp [hl]
 
-/-- Which part carries which shape: `after` always has the segment's shape; `before` has it too, except
-when the segment is length-less and `d > 0`, where `before` is built without a shape. -/
+/-- Every part `Cut` returns carries the segment's shape — for every `d` and every shaped segment (the two
+parts of the two-sided split, the part cut off the start of a length-less segment, and the segment itself
+where it is returned whole). -/
 theorem C18_cut_shape (d : Int) (s : SegS) :
     (∀ a, (cutSegS d s).after = some a → a.shape = s.shape) ∧
-    (∀ b, (cutSegS d s).before = some b →
-      ((s.seg.len ≠ none ∨ d ≤ 0) → b.shape = s.shape) ∧
-      (s.seg.len = none → 0 < d → b.shape = none)) := by
+    (∀ b, (cutSegS d s).before = some b → b.shape = s.shape) := by
   by_cases hd : d ≤ 0
   · simp [cutSegS, hd]
-  · have hd' : 0 < d := by omega
-    cases hs : s.seg.len with
+  · cases hs : s.seg.len with
     | none =>
       simp only [cutSegS, hd, if_false, hs]
-      refine ⟨fun a ha => (by cases ha; rfl), fun b hb => ?_⟩
-      cases hb
-      exact ⟨fun h => by simp at h, fun _ _ => rfl⟩
+      exact ⟨fun a ha => (by cases ha; rfl), fun b hb => (by cases hb; rfl)⟩
     | some l =>
       by_cases hl : l ≤ d
       · simp only [cutSegS, hd, if_false, hs, hl, if_true]
-        refine ⟨fun a ha => (by cases ha), fun b hb => ?_⟩
-        cases hb
-        exact ⟨fun _ => rfl, fun h => by simp at h⟩
+        exact ⟨fun a ha => (by cases ha), fun b hb => (by cases hb; rfl)⟩
       · simp only [cutSegS, hd, if_false, hs, hl]
-        refine ⟨fun a ha => (by cases ha; rfl), fun b hb => ?_⟩
-        cases hb
-        exact ⟨fun _ => rfl, fun h => by simp at h⟩
+        exact ⟨fun a ha => (by cases ha; rfl), fun b hb => (by cases hb; rfl)⟩
 
-/-- So wherever the shape is kept, every part stands for the same consumption (`Fixed` if set, else the
-magnitude) as the segment it was cut from. -/
-theorem C18_cut_shape_same_consumption (d : Int) (s : SegS) (h : s.seg.len ≠ none ∨ d ≤ 0) :
+/-- So every part stands for the same consumption (`Fixed` if set, else the magnitude) as the segment it was
+cut from: `Cut` splits the consumption function without changing it, for every `d` and every shaped segment —
+no hypothesis. -/
+theorem C18_cut_shape_same_consumption (d : Int) (s : SegS) :
     (∀ b, (cutSegS d s).before = some b → b.fixed = s.fixed) ∧
     (∀ a, (cutSegS d s).after = some a → a.fixed = s.fixed) := by
   have hmag : ∀ p, ((cutSegS d s).before = some p ∨ (cutSegS d s).after = some p) → p.seg.mag = s.seg.mag := by
@@ -82,19 +77,177 @@ theorem C18_cut_shape_same_consumption (d : Int) (s : SegS) (h : s.seg.len ≠ n
   obtain ⟨ha, hb⟩ := C18_cut_shape d s
   refine ⟨fun b hbe => ?_, fun a hae => ?_⟩
   · unfold SegS.fixed
-    rw [((hb b hbe).1 h), hmag b (Or.inl hbe)]
+    rw [hb b hbe, hmag b (Or.inl hbe)]
   · unfold SegS.fixed
     rw [ha a hae, hmag a (Or.inr hae)]
 
-/-- Recorded behaviour (outside C18's step function, which reads magnitudes): cutting the length-less
-segment `{magnitude 5, Fixed 7}` at `d = 3` returns a `before` part without shape — it stands for `5`, the
-segment and the `after` part for `7`; the same cut of the same segment with a length keeps `7` on both. -/
-theorem C18_cut_shape_unbounded_before :
-    (cutSegS 3 ⟨⟨5, none⟩, some 7⟩).before = some ⟨⟨5, some 3⟩, none⟩ ∧
-    ((cutSegS 3 ⟨⟨5, none⟩, some 7⟩).before.map (·.fixed)) = some 5 ∧
-    ((cutSegS 3 ⟨⟨5, none⟩, some 7⟩).after.map (·.fixed)) = some 7 ∧
+/-- For the record, `Cut` before `fix:` c1d3a57 (`cutSegSLegacy`): cutting the length-less segment
+`{magnitude 5, Fixed 7}` at `d = 3` returned a `before` part without shape — standing for `5`, where the
+segment and the `after` part stand for `7` (the defect `C18/Cut/shape-lost-on-unbounded-before`); the repaired
+`Cut` keeps `7` on both, as the same cut of a segment with a length always did. -/
+theorem C18_cut_shape_legacy_fails :
+    (cutSegSLegacy 3 ⟨⟨5, none⟩, some 7⟩).before = some ⟨⟨5, some 3⟩, none⟩ ∧
+    ((cutSegSLegacy 3 ⟨⟨5, none⟩, some 7⟩).before.map (·.fixed)) = some 5 ∧
+    ((cutSegSLegacy 3 ⟨⟨5, none⟩, some 7⟩).after.map (·.fixed)) = some 7 ∧
+    (cutSegS 3 ⟨⟨5, none⟩, some 7⟩).before = some ⟨⟨5, some 3⟩, some 7⟩ ∧
     (cutSegS 3 ⟨⟨5, some 9⟩, some 7⟩).before = some ⟨⟨5, some 3⟩, some 7⟩ ∧
     (cutSegS 3 ⟨⟨5, some 9⟩, some 7⟩).after = some ⟨⟨5, some 6⟩, some 7⟩ := by
-  refine ⟨by decide, by decide, by decide, by decide, by decide⟩
+  refine ⟨by decide, by decide, by decide, by decide, by decide, by decide⟩
+
+/-- The old rule differed from the repaired one only there: for a segment with a length, for `d ≤ 0`, or for
+a segment without a shape, `cutSegSLegacy` and `cutSegS` agree. -/
+theorem C18_cut_shape_legacy_exact (d : Int) (s : SegS) (h : s.seg.len ≠ none ∨ d ≤ 0 ∨ s.shape = none) :
+    cutSegSLegacy d s = cutSegS d s := by
+  unfold cutSegSLegacy cutSegS
+  by_cases hd : d ≤ 0
+  · simp [hd]
+  · simp only [hd, if_false]
+    cases hs : s.seg.len with
+    | none =>
+      rcases h with h | h | h
+      · exact absurd hs h
+      · exact absurd h hd
+      · simp [h]
+    | some l => rfl
+
+/-! ## The shape through `Shift`, `modepb.Cut`, `modepb.Shift` and `Sum` (`ShapeOps.lean`)
+
+These operations carry whole segments into their results.  Erasing the shapes commutes with each of them, so
+every step-function theorem of PropsSeg / PropsMode / PropsLaws speaks about shaped lists and modes as they
+are; and `Shift` translates the CONSUMPTION function (`Fixed` where set, else the magnitude) too. -/
+
+/-- Erasing shapes commutes with `Shift`, for every `d` and every shaped list. -/
+theorem C18_shift_shape_erase (d : Int) (l : List SegS) : eraseS (shiftS d l) = shift d (eraseS l) :=
+  shiftS_erase d l
+
+/-- `Shift(d)` translates the consumption function by `d` exactly like the magnitude function — for all lists
+with non-negative lengths, every `d` and `t` — provided that, when `d > 0`, an idle first segment (magnitude 0)
+does not claim a non-zero `Fixed` consumption: that segment is cloned WITH its shape and lengthened. -/
+theorem C18_shift_consumption (d : Int) (l : List SegS) (h : NonNeg (eraseS l))
+    (hidle : 0 < d → ∀ f, l.head? = some f → f.seg.mag = 0 → f.fixed = 0) (t : Int) :
+    denF (shiftS d l) t = if t < 0 then 0 else denF l (t - d) :=
+  denF_shiftS d l h hidle t
+
+/-- Recorded behaviour outside the hypothesis (and outside C18's step function, which reads magnitudes): the
+self-contradictory idle segment `{magnitude 0, Fixed 7, 3ns}` shifted right by 2 is lengthened with its shape, so
+the result claims a consumption of 7 on `[0, 2)` where the translated function is 0. -/
+theorem C18_shift_shape_idle_first_witness :
+    shiftS 2 [⟨⟨0, some 3⟩, some 7⟩] = [⟨⟨0, some 5⟩, some 7⟩] ∧
+    denF (shiftS 2 [⟨⟨0, some 3⟩, some 7⟩]) 0 = 7 ∧ denF [⟨⟨0, some 3⟩, some 7⟩] (0 - 2) = 0 ∧
+    den (eraseS (shiftS 2 [⟨⟨0, some 3⟩, some 7⟩])) 0 = 0 := by
+  refine ⟨by decide, by decide, by decide, by decide⟩
+
+/-- Erasing shapes commutes with `modepb.Cut` (both parts and the flag) and with `modepb.Shift`, for every
+instant / offset and every mode. -/
+theorem C18_modes_shape_erase (t d : Int) (m : ModeS) :
+    (modeCutS t m).before.map ModeS.erase = (modeCut t m.erase).before ∧
+    (modeCutS t m).after.map ModeS.erase = (modeCut t m.erase).after ∧
+    (modeCutS t m).outside = (modeCut t m.erase).outside ∧
+    (modeShiftS d m).erase = modeShift d m.erase :=
+  ⟨(modeCutS_erase t m).1, (modeCutS_erase t m).2.1, (modeCutS_erase t m).2.2, modeShiftS_erase d m⟩
+
+/-- `modepb.Cut` splits the CONSUMPTION function of a mode at `t` without changing it, exactly like the
+magnitude function (`C18_modes_cut`): for every instant and every shaped mode with non-negative lengths (full
+strength after `fix:` c1d3a57; before, a cut through a length-less segment lost that segment's shape on the
+`before` mode). -/
+theorem C18_modes_cut_consumption (t : Int) (m : ModeS) (h : NonNeg (eraseS m.segs)) :
+    (∀ x, x < t → modeDenOpt t ((modeCutS t m).before.map ModeS.toFixed) x = modeDen t m.toFixed x) ∧
+    (∀ x, t ≤ x → modeDenOpt t ((modeCutS t m).before.map ModeS.toFixed) x = 0) ∧
+    (∀ x, t ≤ x → modeDenOpt t ((modeCutS t m).after.map ModeS.toFixed) x = modeDen t m.toFixed x) := by
+  obtain ⟨hb, ha, _⟩ := modeCutS_toFixed t m
+  rw [hb, ha]
+  exact C18_modes_cut t m.toFixed (nonNeg_toFixed m.segs h)
+
+/-- The non-timing fields of a mode (id, title, description, voltage, normal — one opaque token): both parts of
+`modepb.Cut` and the result of `modepb.Shift` carry the argument's (they are `proto.Clone`s of it or the argument
+itself), `modepb.Sum` sets none ("No metadata will be set on the returned mode"). -/
+theorem C18_modes_metadata (t d : Int) (m : ModeS) (ms : List ModeS) :
+    (∀ b, (modeCutS t m).before = some b → b.info = m.info) ∧
+    (∀ a, (modeCutS t m).after = some a → a.info = m.info) ∧
+    (modeShiftS d m).info = m.info ∧
+    (∀ r, modeSumS ms = some r → r.info = 0) := by
+  refine ⟨?_, ?_, ?_, ?_⟩
+  · intro b hb
+    unfold modeCutS at hb
+    split at hb
+    · cases hb; rfl
+    · simp only [] at hb
+      split at hb
+      · cases hb
+      · split at hb
+        · cases hb; rfl
+        · split at hb
+          · cases hb
+          · simp only [Option.some.injEq] at hb
+            subst hb
+            split <;> rfl
+  · intro a ha
+    unfold modeCutS at ha
+    split at ha
+    · cases ha; rfl
+    · simp only [] at ha
+      split at ha
+      · cases ha; rfl
+      · split at ha
+        · cases ha
+        · split at ha
+          · cases ha
+          · simp only [Option.some.injEq] at ha
+            subst ha
+            split <;> rfl
+  · unfold modeShiftS
+    split
+    · rfl
+    · split <;> rfl
+  · intro r hr
+    unfold modeSumS at hr
+    cases hm : modeSum (ms.map ModeS.erase) with
+    | none => rw [hm] at hr; cases hr
+    | some m0 =>
+      rw [hm] at hr
+      simp only [Option.map_some, Option.some.injEq] at hr
+      subst hr
+      rfl
+
+/-- `Sum` and `modepb.Sum` ignore shapes on the way in and return none ("We ignore shape for now"): the
+magnitudes and lengths of the result are those of the sum of the erased lists, whatever the shapes were. -/
+theorem C18_sum_shapeless (ls : List (List SegS)) (ms : List ModeS) :
+    eraseS (sumS ls) = sum (ls.map eraseS) ∧ (∀ r ∈ sumS ls, r.shape = none) ∧
+    (modeSumS ms).map ModeS.erase = modeSum (ms.map ModeS.erase) ∧
+    (∀ r, modeSumS ms = some r → ∀ s ∈ r.segs, s.shape = none) := by
+  refine ⟨?_, ?_, ?_, ?_⟩
+  · simp [sumS, eraseS, List.map_map, Function.comp_def]
+  · intro r hr
+    obtain ⟨a, _, rfl⟩ := List.mem_map.mp hr
+    rfl
+  · unfold modeSumS
+    cases modeSum (ms.map ModeS.erase) with
+    | none => rfl
+    | some m => simp [ModeS.erase, eraseS, List.map_map, Function.comp_def]
+  · intro r hr s hs
+    unfold modeSumS at hr
+    cases hm : modeSum (ms.map ModeS.erase) with
+    | none => rw [hm] at hr; cases hr
+    | some m =>
+      rw [hm] at hr
+      simp only [Option.map_some, Option.some.injEq] at hr
+      subst hr
+      obtain ⟨a, _, rfl⟩ := List.mem_map.mp hs
+      rfl
+
+/-! Non-vacuity: shaped lists through the operations. -/
+example : shiftS (-3) [⟨⟨1, some 2⟩, some 4⟩, ⟨⟨2, some 4⟩, some 6⟩, ⟨⟨3, none⟩, none⟩]
+    = [⟨⟨2, some 3⟩, some 6⟩, ⟨⟨3, none⟩, none⟩] := by decide
+example : shiftS 2 [⟨⟨5, some 3⟩, some 7⟩] = [⟨⟨0, some 2⟩, none⟩, ⟨⟨5, some 3⟩, some 7⟩] := by decide
+example : denF (shiftS 2 [⟨⟨5, some 3⟩, some 7⟩]) 3 = 7 ∧ denF [⟨⟨5, some 3⟩, some 7⟩] 1 = 7 := by decide
+example : (modeCutS 5 ⟨some 2, [⟨⟨1, some 2⟩, some 9⟩, ⟨⟨2, some 4⟩, some 6⟩], 7⟩).after
+    = some ⟨some 5, [⟨⟨2, some 3⟩, some 6⟩], 7⟩ := by decide
+example : (modeCutS 5 ⟨some 2, [⟨⟨1, some 2⟩, some 9⟩, ⟨⟨2, some 4⟩, some 6⟩], 7⟩).before
+    = some ⟨some 2, [⟨⟨1, some 2⟩, some 9⟩, ⟨⟨2, some 1⟩, some 6⟩], 7⟩ := by decide
+example : modeSumS [⟨some 0, [⟨⟨1, some 2⟩, some 9⟩], 3⟩, ⟨none, [⟨⟨2, some 2⟩, none⟩], 4⟩]
+    = some ⟨some 0, [⟨⟨3, some 2⟩, none⟩], 0⟩ := by decide
+example : (modeCutS 5 ⟨some 2, [⟨⟨1, some 2⟩, some 9⟩, ⟨⟨2, none⟩, some 6⟩], 0⟩).before
+    = some ⟨some 2, [⟨⟨1, some 2⟩, some 9⟩, ⟨⟨2, some 1⟩, some 6⟩], 0⟩ := by decide
+example : sumS [[⟨⟨1, some 2⟩, some 9⟩], [⟨⟨2, some 2⟩, none⟩]] = [⟨⟨3, some 2⟩, none⟩] := by decide
 
 end ScVerif.C18
